@@ -272,3 +272,93 @@ example : WaitersSound [C10.exW] := by
 
 example : waitForEvent [C10.exW] 1 3 none (some 1) (some 5)
     = .got { ty := 3, kind := .plain, uid := 9, key := some 1 } := by decide
+
+/-! ## the default waiter id (no `waiter_id=` given)
+
+The id is a function of the awaited type and of the whole requirement (keys and values); the numbers that stand for these
+names form a table (`AutoIds`), and the table names different waits differently (`wellFormed`, checked by the driver when
+the table is installed).  So two waits of one step that differ only in a requirement VALUE are two waiters, and a wait
+with the default id only ever consumes a waiter that was registered for the same request. -/
+
+theorem C10.mem_of_lookup (ids : AutoIds) (ty : Nat) (req : Option Nat) (w : Nat)
+    (h : ids.lookup ty req = some w) : ((ty, req), w) ∈ ids := by
+  unfold AutoIds.lookup at h
+  cases hf : ids.find? (fun p => p.1 == (ty, req)) with
+  | none => simp [hf] at h
+  | some p =>
+    simp only [hf, Option.map_some, Option.some.injEq] at h
+    have hm := List.mem_of_find?_eq_some hf
+    have hk : p.1 = (ty, req) := by simpa using List.find?_some hf
+    have : p = ((ty, req), w) := by
+      cases p with
+      | mk a b => simp only at hk h; subst hk; subst h; rfl
+    exact this ▸ hm
+
+theorem C10.eq_of_nodup_snd {α : Type} (l : List (α × Nat)) (h : (l.map (·.2)).Nodup) (a b : α × Nat)
+    (ha : a ∈ l) (hb : b ∈ l) (hab : a.2 = b.2) : a = b := by
+  induction l with
+  | nil => cases ha
+  | cons x xs ih =>
+    simp only [List.map_cons, List.nodup_cons] at h
+    obtain ⟨hx, hxs⟩ := h
+    rcases List.mem_cons.mp ha with ha | ha <;> rcases List.mem_cons.mp hb with hb | hb
+    · rw [ha, hb]
+    · exfalso; apply hx; rw [← ha, hab]; exact List.mem_map.mpr ⟨b, hb, rfl⟩
+    · exfalso; apply hx; rw [← hb, ← hab]; exact List.mem_map.mpr ⟨a, ha, rfl⟩
+    · exact ih hxs ha hb
+
+/-- **different waits, different default ids**: under a well-formed naming, two requests that get the same default id
+ask for the same type with the same requirement — in particular requirements with the same key and different values
+never share a waiter -/
+theorem C10_default_ids_distinct (ids : AutoIds) (hwf : ids.wellFormed = true) (ty1 ty2 : Nat) (r1 r2 : Option Nat)
+    (w : Nat) (h1 : ids.lookup ty1 r1 = some w) (h2 : ids.lookup ty2 r2 = some w) : ty1 = ty2 ∧ r1 = r2 := by
+  have hnd : (ids.map (·.2)).Nodup := by simpa [AutoIds.wellFormed] using hwf
+  have := C10.eq_of_nodup_snd ids hnd _ _ (C10.mem_of_lookup ids ty1 r1 w h1) (C10.mem_of_lookup ids ty2 r2 w h2) rfl
+  simp only [Prod.mk.injEq, and_true] at this
+  exact this
+
+/-- every waiter stored under a default id records the request that id names (what `AddWaiter` establishes,
+`C10_waiter_records_request`, while the requirements are live — not across a resume, see the refutation above) -/
+def C10.NamedByRequest (ids : AutoIds) (ws : List Waiter) : Prop :=
+  ∀ x ∈ ws, ∀ ty r, ids.lookup ty r = some x.wid → x.waitTy = ty ∧ x.req = r
+
+/-- **the event a default-id wait returns satisfies what THAT wait asked for**: type and requirement of the request
+itself (not merely of some waiter record) -/
+theorem C10_default_wait_gets_own_reply (ids : AutoIds) (snapshot : List Waiter) (ty : Nat) (we : Option Ev)
+    (req tmo : Option Nat) (wid : Nat) (e : Ev) (hs : WaitersSound snapshot) (hn : C10.NamedByRequest ids snapshot)
+    (h : waitForEventAuto ids snapshot none ty we req tmo = some (wid, .got e)) :
+    e.ty = ty ∧ ∀ v, req = some v → e.key = some v := by
+  unfold waitForEventAuto at h
+  cases hl : ids.lookup ty req with
+  | none => simp [hl] at h
+  | some w0 =>
+    simp only [hl, Option.map_some, Option.some.injEq, Prod.mk.injEq] at h
+    obtain ⟨hw, hg⟩ := h
+    obtain ⟨w, hmem, hwid, _, _, hty, hreq⟩ := C10_got_matches snapshot w0 ty we req tmo e hs hg
+    obtain ⟨h1, h2⟩ := hn w hmem ty req (by rw [hwid]; exact hl)
+    exact ⟨by rw [hty, h1], fun v hv => hreq v (by rw [h2]; exact hv)⟩
+
+/-- a default-id wait whose request has no waiter yet suspends, registering exactly that request under its own id -/
+theorem C10_default_wait_registers_own (ids : AutoIds) (snapshot : List Waiter) (ty : Nat) (we : Option Ev)
+    (req tmo : Option Nat) (w0 : Nat) (hl : ids.lookup ty req = some w0)
+    (hnew : snapshot.find? (fun x => x.wid == w0) = none) :
+    waitForEventAuto ids snapshot none ty we req tmo = some (w0, .waiting (.addWaiter w0 we req tmo ty)) := by
+  simp [waitForEventAuto, hl, waitForEvent, hnew]
+
+def C10.exIds : AutoIds := [((3, some 1), 101), ((3, some 2), 102), ((3, none), 103), ((11, some 1), 100)]
+
+example : C10.exIds.wellFormed = true := by decide
+example : C10.exIds.lookup 3 (some 1) = some 101 ∧ C10.exIds.lookup 3 (some 2) = some 102 := by decide
+/-- two waits of one step for type 3, `k = 1` (answered) and then `k = 2`: the second does not see the first's event -/
+example : waitForEventAuto C10.exIds [{ C10.exW with wid := 101 }] none 3 none (some 2) none
+    = some (102, .waiting (.addWaiter 102 none (some 2) none 3)) := by decide
+example : waitForEventAuto C10.exIds [{ C10.exW with wid := 101 }] none 3 none (some 1) none
+    = some (101, .got { ty := 3, kind := .plain, uid := 9, key := some 1 }) := by decide
+example : C10.NamedByRequest C10.exIds [{ C10.exW with wid := 101 }] := by
+  intro x hx ty r hl
+  simp at hx; subst hx
+  have := C10.mem_of_lookup C10.exIds ty r 101 hl
+  simp [C10.exIds] at this
+  obtain ⟨h1, h2⟩ := this
+  subst h1; subst h2
+  exact ⟨rfl, rfl⟩
